@@ -133,16 +133,17 @@ class Patience(O.Monitor):
         return False
 
     def _jockey_dests(self, cname, nid):
-        c = [x for x in self.spec["classes"] if x["name"] == cname]
-        out = {-1}
-        # class may have changed while waiting: accept the jockeying destinations of any class (conservative, sound)
+        # the renege record carries the class the customer has at that moment (after any class change while waiting);
+        # the jockeying destination is decided by that class's routing object
         for c in self.spec["classes"]:
+            if c["name"] != cname:
+                continue
             r = c["routing"]
             if r["kind"] == "network":
                 j = r["routers"][nid - 1].get("jockey")
                 if j:
-                    out |= set(d for d, p in zip(j["dests"], j["probs"]) if p > 0)
-        return out
+                    return set(d for d, p in zip(j["dests"], j["probs"]) if p > 0)
+        return {-1}
 
 
 class Baulking(O.Monitor):
